@@ -349,16 +349,21 @@ impl Stats {
 /// run `f` with fd 1 pointing at /dev/null (rdp-rs prints diagnostics on stdout), then restore it
 pub fn with_silenced_stdout<T>(f: impl FnOnce() -> T) -> T {
     use std::io::Write;
-    let _ = std::io::stdout().flush();
-    let saved = unsafe { libc::dup(1) };
-    silence_stdout();
-    let r = f();
-    let _ = std::io::stdout().flush();
-    unsafe {
-        libc::dup2(saved, 1);
-        libc::close(saved);
+    // restores the descriptor also when `f` unwinds
+    struct Restore(i32);
+    impl Drop for Restore {
+        fn drop(&mut self) {
+            let _ = std::io::stdout().flush();
+            unsafe {
+                libc::dup2(self.0, 1);
+                libc::close(self.0);
+            }
+        }
     }
-    r
+    let _ = std::io::stdout().flush();
+    let _guard = Restore(unsafe { libc::dup(1) });
+    silence_stdout();
+    f()
 }
 
 pub fn silence_stdout() {
@@ -472,11 +477,24 @@ pub fn work_dir(id: &str) -> PathBuf {
     d
 }
 
+/// prefix of the error returned by `run_parent` when building the enumeration panicked
+pub const BASELINE_PANIC: &str = "panic while running the honest baseline: ";
+
 /// run the whole sweep; returns merged results. Machinery failures are returned as Err.
 pub fn run_parent(prop: &mut dyn Prop, tier: Tier) -> Result<RunResult, String> {
     let t0 = Instant::now();
     prop.set_parent_mode();
-    with_silenced_stdout(|| prop.prepare(tier))?;
+    install_panic_hook();
+    let _ = take_panic();
+    match std::panic::catch_unwind(std::panic::AssertUnwindSafe(|| with_silenced_stdout(|| prop.prepare(tier)))) {
+        Ok(r) => r?,
+        Err(_) => {
+            // the enumeration is built from honest baseline conversations / calls: a panic of the code under test
+            // there is already a verdict (the parent turns it into a violation), anything else is machinery
+            let p = take_panic().unwrap_or_else(|| "? :: panic".into());
+            return Err(format!("{}{}", BASELINE_PANIC, p));
+        }
+    }
     let n = prop.n_cases();
     let id = prop.id();
     let nw = prop.workers().min(n.max(1) as usize).max(1);
@@ -652,19 +670,52 @@ pub fn run_parent(prop: &mut dyn Prop, tier: Tier) -> Result<RunResult, String> 
     Ok(rr)
 }
 
+/// run a child to completion with a deadline; None = killed after the deadline (a hang)
+fn output_with_deadline(mut cmd: Command, secs: u64) -> Result<Option<std::process::Output>, String> {
+    use std::io::Read as _;
+    let mut child = cmd.stdin(Stdio::null()).stderr(Stdio::piped()).stdout(Stdio::null()).spawn().map_err(|e| e.to_string())?;
+    let mut err_pipe = child.stderr.take();
+    // drain stderr on a thread so that a chatty child cannot block on a full pipe
+    let reader = std::thread::spawn(move || {
+        let mut s = Vec::new();
+        if let Some(p) = err_pipe.as_mut() {
+            let _ = p.read_to_end(&mut s);
+        }
+        s
+    });
+    let t0 = Instant::now();
+    loop {
+        match child.try_wait() {
+            Ok(Some(status)) => {
+                let stderr = reader.join().unwrap_or_default();
+                return Ok(Some(std::process::Output { status, stdout: vec![], stderr }));
+            }
+            Ok(None) => {
+                if t0.elapsed() > Duration::from_secs(secs) {
+                    let _ = child.kill();
+                    let _ = child.wait();
+                    let _ = reader.join();
+                    return Ok(None);
+                }
+                std::thread::sleep(Duration::from_millis(20));
+            }
+            Err(e) => return Err(e.to_string()),
+        }
+    }
+}
+
+/// seconds a replay subprocess may take before it is declared hung
+pub const REPLAY_DEADLINE_S: u64 = 60;
+
 /// re-run one case in a fresh subprocess and return its violation signature (or "" if none, "crash:..." if it died)
 pub fn replay_in_subprocess(id: &str, tier: Tier, idx: u64) -> Result<(String, Option<Value>), String> {
     let exe = std::env::current_exe().map_err(|e| e.to_string())?;
-    let out = Command::new(exe)
-        .arg("--one")
-        .arg(id)
-        .arg(tier.name())
-        .arg(idx.to_string())
-        .stdin(Stdio::null())
-        .stderr(Stdio::piped())
-        .stdout(Stdio::null())
-        .output()
-        .map_err(|e| e.to_string())?;
+    let mut cmd = Command::new(exe);
+    cmd.arg("--one").arg(id).arg(tier.name()).arg(idx.to_string());
+    let out = match output_with_deadline(cmd, REPLAY_DEADLINE_S)? {
+        Some(o) => o,
+        None => return Ok(("crash:hang".to_string(), None)),
+    };
     let err = String::from_utf8_lossy(&out.stderr).to_string();
     let mut desc = None;
     for l in err.lines() {
@@ -682,16 +733,12 @@ pub fn replay_in_subprocess(id: &str, tier: Tier, idx: u64) -> Result<(String, O
 pub fn replay_seq_in_subprocess(id: &str, tier: Tier, idxs: &[u64]) -> Result<String, String> {
     let exe = std::env::current_exe().map_err(|e| e.to_string())?;
     let list: Vec<String> = idxs.iter().map(|i| i.to_string()).collect();
-    let out = Command::new(exe)
-        .arg("--seq")
-        .arg(id)
-        .arg(tier.name())
-        .arg(list.join(","))
-        .stdin(Stdio::null())
-        .stderr(Stdio::piped())
-        .stdout(Stdio::null())
-        .output()
-        .map_err(|e| e.to_string())?;
+    let mut cmd = Command::new(exe);
+    cmd.arg("--seq").arg(id).arg(tier.name()).arg(list.join(","));
+    let out = match output_with_deadline(cmd, REPLAY_DEADLINE_S + idxs.len() as u64)? {
+        Some(o) => o,
+        None => return Ok("crash:hang".to_string()),
+    };
     let err = String::from_utf8_lossy(&out.stderr).to_string();
     for l in err.lines() {
         if let Some(s) = l.strip_prefix("ONE-SIG: ") {
